@@ -21,6 +21,7 @@ GROUPS = {
                    kernels=['noabs', 'no', 'neq', 'to', 'tflat', 'tsharp', 'co', 'cmod', 'parse']),
     'SrcRender': dict(gen=['SrcRel', 'SrcPitch', 'SrcRender', 'KindPreds'], modules=['MV.Props.TieRender', 'MV.Props.TieKinds'],
                       kernels=['n2p', 'm2p']),
+    'SrcSlice': dict(gen=['SrcSlice'], modules=['MV.Props.TieSlice'], kernels=['gmb'], driver='Src2'),
 }
 HELPERS = ['MV.Lemmas.PyTie']
 
@@ -193,6 +194,31 @@ def cases(rng, kernel, n):
                 out.append(([enc_melody(m), enc_chord(c, with_parts=False), tr, time, lp], py_res(f),
                             {'melody': str(m), 'chord': str(c), 'time': str(time), 'last': lp},
                             [f'len={len(m.notes)}', f'last={"none" if lp is None else "some"}']))
+    elif kernel == 'gmb':
+        from musiclang.write.time_utils import get_melody_between
+        from core import enc_melody, frac_str
+        from fractions import Fraction
+        for i in range(n):
+            m = gen.rand_melody(rng, n_notes=(0, 6), kinds=gen.NONREL + gen.REL + ['d'], p_rest=0.15, p_cont=0.2, p_amp=0.3)
+            onsets = [Fraction(0)]
+            for nt in m.notes:
+                onsets.append(onsets[-1] + Fraction(nt.duration))
+            total = onsets[-1]
+
+            def point():
+                r = rng.random()
+                if r < 0.45:
+                    return rng.choice(onsets)                                   # on a note boundary
+                if r < 0.9:
+                    return Fraction(rng.randint(0, int(total * 12) + 6), rng.choice([1, 2, 3, 4, 6, 7, 12]))
+                return Fraction(rng.randint(-6, 40), rng.choice([1, 2, 3, 1001, 2003]))   # before 0, far beyond, off-resolution
+            a, b = point(), point()
+            if rng.random() < 0.8 and a > b:
+                a, b = b, a
+            f = lambda: '(' + ' '.join(enc_note(x).s for x in get_melody_between(m, a, b).notes) + ')'
+            out.append(([enc_melody(m), a, b], py_res(f), {'melody': str(m), 'a': frac_str(a), 'b': frac_str(b)},
+                        [f'len={len(m.notes)}', 'a<b' if a < b else 'a>=b', 'a-on' if a in onsets else 'a-off',
+                         'b-on' if b in onsets else 'b-off', 'b>total' if b > total else 'b<=total']))
     else:
         raise KeyError(kernel)
     return out
@@ -207,9 +233,9 @@ def run(ctx, groups, quick=400, thorough=6000, kernels=None):
                 continue
             n = ctx.n(quick, thorough) * (4 if g in lost else 1)
             cs = cases(random.Random(f'{ctx.seed}:{ctx.prop}:{k}'), k, n)   # own stream: the property's streams keep theirs
-            ctx.compare(f'kernel:{k}', 'Src',
+            ctx.compare(f'kernel:{k}', GROUPS[g].get('driver', 'Src'),
                         [{'line': sx(k, 'mod', *t), 'impl': impl, 'input': {'kernel': k, **inp}, 'bucket': b}
                          for t, impl, inp, b in cs])
-            ctx.compare(f'src:{k}', 'Src',
+            ctx.compare(f'src:{k}', GROUPS[g].get('driver', 'Src'),
                         [{'line': sx(k, 'src', *t), 'impl': impl, 'input': {'kernel': k, **inp}, 'bucket': b}
                          for t, impl, inp, b in cs], advisory=True)
